@@ -494,11 +494,11 @@ func e3BigCase(seed uint64, n int) Case {
 func init() {
 	register("E3", func(tier string, seed uint64) []Case {
 		var cases []Case
-		n := tierPick(tier, 320, 20000)
+		n := tierPick(tier, 320, 50000)
 		for i := 0; i < n; i++ {
 			cases = append(cases, e3Case(seed, i))
 		}
-		nb := tierPick(tier, 48, 2500)
+		nb := tierPick(tier, 48, 6000)
 		for i := 0; i < nb; i++ {
 			cases = append(cases, e3BigCase(seed, i))
 		}
